@@ -140,7 +140,7 @@ def build(tier="quick", seed=0):
         lim = []
         for e in it.events[n0:]:
             if e[0] == "unpackb-options":
-                lim += [(k_, v_) for k_, v_ in e[1:-1] if isinstance(k_, str) and k_.startswith("max_") and isinstance(v_, int) and 0 <= v_ < 2**32 - 1]
+                lim += [(k_, v_) for k_, v_ in e[1:-1] if isinstance(k_, str) and k_.startswith("max_") and isinstance(v_, int) and 0 <= v_ < 2**32 - 1 and not (k_ == "max_buffer_size" and v_ == 0)]  # (msgpack: max_buffer_size=0 means 2**32-1)
         return sorted(set(lim))
 
     pack.add(Obligation("C04.iter.limits[no size limit below what a frame can hold]", lambda tier: prove_paths("C04.iter.limits[no size limit below what a frame can hold]", with_cut(th_limits), lambda p: (p.kind == "raise" or p.value == [], f"the reader decodes frames with the limits {p.value if p.kind != 'raise' else ''}: a complete frame holding a larger value is not yielded (nor anything behind it)"), lambda m_, p: {}, allow_raise=None),
@@ -206,6 +206,70 @@ def build(tier="quick", seed=0):
         name = f"C04.iter.step[{nb} byte(s) left]"
         pack.add(Obligation(name, lambda tier, name=name, nb=nb: prove_paths(name, with_cut(th_eof(nb)), lambda p, nb=nb: (p.value[0] == [] and (p.value[1] == "stop" or (nb > 0 and isinstance(p.value[1], tuple))), f"{nb} byte(s) left: nothing may be yielded and the iteration must end{' normally' if nb == 0 else ' or raise'}: {p.value[0]!r} {p.value[1] if isinstance(p.value[1], str) else p.value[1][:2]}")),
                             replay=lambda w, nb=nb: {"call": "c04_cut", "args": {"records": 1, "cut": -1 - 0, "tail": nb, "gz": False}}, functions=FU, mode="invariant (loop cut); finite case analysis 0..3"))
+
+    def th_eof_codec(nrecords):
+        # a compressed stream whose file lacks the end-of-stream marker (the writing process died after a flush): the decompressing file object hands out
+        # everything that was flushed and then RAISES EOFError instead of returning b"" - a stream that ends at a frame boundary still reads without error
+        def th():
+            D, Do = two_descs()
+            recs = [it.call(D, [], {"n": SInt(x + i), "s": "v"}) for i in range(nrecords)]
+            segs = []
+            for r in recs:
+                segs += frame_of(it, pk, r)
+            fp, rd = reader_at_loop_head(it, st, segs, registry(D, Do))
+            fp.eof_raises = EOFError("Compressed file ended before the end-of-stream marker was reached")
+            out, end = run_iter(rd)
+            return len(out), end if isinstance(end, str) else end[:2]
+        return th
+
+    for k in (0, 1, 2):
+        name = f"C04.iter[{k} complete frame(s), then the decompressor raises EOFError at the frame boundary]"
+        pack.add(Obligation(name, lambda tier, name=name, k=k: prove_paths(name, th_eof_codec(k), lambda p, k=k: (p.value == (k, "stop"), f"{k} complete record frame(s) in a compressed stream without end-of-stream marker: yielded {p.value[0]}, ended {p.value[1]} (must yield them and end without error)"),
+                            lambda m_, p: {}, allow_raise=("UnicodeEncodeError", "error")), replay=lambda w, k=k: {"call": "c04_gz_flushpoint", "args": {"records": k}}, functions=FU, mode="whole loop over 0..2 frames; file contract of a decompressing reader"))
+
+    def th_extra_bytes(extra):
+        # a frame whose body holds a complete packed record FOLLOWED by further bytes (what a reader sees behind a short or failed write in the middle of a
+        # stream: frame boundaries no longer line up): nothing may be yielded from it
+        def th():
+            import struct as _struct
+
+            D, Do = two_descs()
+            r = it.call(D, [], {"n": 5, "s": "v"})
+            pre, blob = frame_of(it, pk, r)
+            if blob.concrete is None:
+                raise Unsupported("concrete record without concrete bytes")
+            body = blob.concrete + extra
+            fp, rd = reader_at_loop_head(it, st, [_struct.pack(">I", len(body)), body], registry(D, Do))
+            out, end = run_iter(rd)
+            return len(out), end if isinstance(end, str) else end[:2]
+        return th
+
+    for extra in (b"\x05", b"\x00\x00\x00\x01\x0e", b"\xc0\xc0"):
+        name = f"C04.iter.step[frame body = a packed record followed by {extra!r}]"
+        pack.add(Obligation(name, lambda tier, name=name, extra=extra: prove_paths(name, with_cut(th_extra_bytes(extra)), lambda p: (p.value[0] == 0 and p.value[1] != "cut", f"a frame with bytes behind the packed value: yielded {p.value[0]}, ended {p.value[1]} (must yield nothing and end or raise)")),
+                            replay=lambda w, extra=extra: {"call": "c04_extra_bytes", "args": {"extra": extra.hex()}}, functions=FU, mode="invariant (loop cut)"))
+
+    def th_short_prefix(keep, nrec):
+        # a SHORT write of the length prefix of the last frame (keep of its 4 bytes reach the file, the writer carries on): the reader must not yield anything for that frame
+        def th():
+            D, Do = two_descs()
+            recs = [it.call(D, [], {"n": 5 + i, "s": "v"}) for i in range(nrec)]
+            segs = []
+            for i, r in enumerate(recs):
+                pre, blob = frame_of(it, pk, r)
+                if blob.concrete is None or not isinstance(pre, bytes):
+                    raise Unsupported("concrete record without concrete bytes")
+                segs += [pre[:keep] if i == nrec - 1 else pre, blob.concrete]
+            fp, rd = reader_at_loop_head(it, st, [b"".join(segs)], registry(D, Do))
+            out, end = drain(it, it.call(it.getattr_(rd, "__iter__"), [], {}))
+            return [(it.type_name(o), it.unbase(o.attrs.get("n")) if isinstance(o, PObj) else None) for o in out], end if isinstance(end, str) else end[:2]
+        return th
+
+    for keep in (1, 2, 3):
+        for nrec in (1, 2):
+            name = f"C04.short_write[{keep} of the 4 length bytes of the last of {nrec} record frame(s) reach the file]"
+            pack.add(Obligation(name, lambda tier, name=name, keep=keep, nrec=nrec: prove_paths(name, th_short_prefix(keep, nrec), lambda p, nrec=nrec: (p.value[0] == [("c04_rec", 5 + i) for i in range(nrec - 1)], f"read back {p.value[0]!r}, ended {p.value[1]}: exactly the {nrec - 1} completely written record(s) may be yielded")),
+                                replay=lambda w, keep=keep, nrec=nrec: {"call": "c04_short_prefix", "args": {"keep": keep, "records": nrec}}, functions=FU, mode="whole loop, concrete frames"))
 
     def th_symtail():
         D, Do = two_descs()
